@@ -468,13 +468,27 @@ def c09e(ctx):
             return 'raise'
         return type(node).__name__
 
+    # roles: D = the dict that is returned, R = the requested value (request.dimensions.get(<key>)), V = the configured values
+    fdefs = Defs(fn.node)
+    D = ([unparse(r.value) for r in returns_of(fn.node) if isinstance(r.value, ast.Name)] or ['dimensions'])[0]
+    R = ([k for k, ds in fdefs.defs.items() if any(is_call(v, 'get') and 'dimensions' in unparse(v.func) and sel is None for v, sel in ds)] or ['value'])[0]
+    V = unparse(loop[0].target.elts[1]) if isinstance(loop[0].target, ast.Tuple) and len(loop[0].target.elts) == 2 else 'values'
+    carriers = {unparse(st.value) for st in fn.walk() if isinstance(st, ast.Assign) and isinstance(st.targets[0], ast.Subscript) and
+                unparse(st.targets[0].value) == D and isinstance(st.value, ast.Name)} - {R}
+
     def ev(st):
-        if isinstance(st, ast.Assign) and isinstance(st.targets[0], ast.Subscript) and unparse(st.targets[0].value) == 'dimensions':
+        if not isinstance(st, ast.Assign):
+            return None
+        t = st.targets[0]
+        into = (isinstance(t, ast.Subscript) and unparse(t.value) == D) or (isinstance(t, ast.Name) and t.id in carriers)
+        if into:
             v = unparse(st.value)
-            return 'accept' if v == 'value' else 'default' if 'default' in v else 'other:' + v
+            if v in carriers:
+                return None            # the value was classified where the carrier was bound
+            return 'accept' if v == R else 'default' if v == V + '.default' else 'other:' + v
         return None
     tab = ctx.rows(table(loop[0].body, cls, event_of=ev))
-    a_ins = tab.find_atoms('value in values')
+    a_ins = tab.find_atoms('%s in %s' % (R, V))
     if len(a_ins) != 1:
         ctx.bad('TileLayer.checked_dimensions:table', 'no membership test `value in values`: a requested dimension value is '
                 'accepted without being one of the configured values', fn)
@@ -487,7 +501,7 @@ def c09e(ctx):
         else:
             others = [a for a in tab.atoms if a != a_in]
             # not value  or  value == 'default'
-            a_nv = [a for a in others if a == 'value']
+            a_nv = [a for a in others if a == R]
             a_def = [a for a in others if 'default' in a]
             isdef = (a_nv and not asg[a_nv[0]]) or (a_def and asg[a_def[0]])
             want = ('fall', ('default',)) if isdef else ('raise', ())
@@ -497,8 +511,8 @@ def c09e(ctx):
               'accept <=> value in values; default <=> no value or "default"; everything else raises (%d rows)' % len(tab.rows), fn,
               fail='checked_dimensions decision table differs from accept/default/raise: %s' % (bad[:2],))
     rets = returns_of(fn.node)
-    ok = bool(rets) and all(unparse(r.value) == 'dimensions' for r in rets) and \
-        any(isinstance(s, ast.Assign) and unparse(s.targets[0]) == 'dimensions' and isinstance(s.value, ast.Dict) and not s.value.keys for s in fn.walk())
+    ok = bool(rets) and all(unparse(r.value) == D for r in rets) and \
+        any(isinstance(s, ast.Assign) and unparse(s.targets[0]) == D and isinstance(s.value, ast.Dict) and not s.value.keys for s in fn.walk())
     ctx.check(ok, 'TileLayer.checked_dimensions:fresh-dict', 'the result is a fresh dict filled only by the loop', fn)
     ok = all(unparse(l.iter).startswith('self.dimensions') for l in loop)
     ctx.check(ok, 'TileLayer.checked_dimensions:configured-keys', 'only configured dimension names are looked up', fn)
